@@ -83,6 +83,13 @@ def documents(draw, max_subnets=4, max_size=3, max_hosts=7, extras=True,
             os=draw(st.sampled_from(oss + ["None", "none"])),
             prob=draw(probs), cost=draw(costs),
             access=draw(st.sampled_from(["root", 2, "root", "user", 1])))
+    # now and then two definitions with identical content (distinct names are distinct actions)
+    if _coin(draw, 0.15):
+        src_name = draw(st.sampled_from(sorted(exploits)))
+        exploits["e_dup"] = dict(exploits[src_name])
+    if privescs and _coin(draw, 0.2):
+        src_name = draw(st.sampled_from(sorted(privescs)))
+        privescs["pe_dup"] = dict(privescs[src_name])
     hostcfg = {}
     for a in addrs:
         services = [s for s in srvs if _coin(draw, q)]
